@@ -50,6 +50,18 @@ MUTANTS = {
  'C06-bond-drift': ('C06', TM, '(modulo - bond) * unit', '(modulo - bond * (1 + 1e-8)) * unit'),
  'C06-rotation-inversion': ('C06', BK, 'test = _dot(mol2_positions-mol2_com, rot_matrix) + mol2_com', 'test = -_dot(mol2_positions-mol2_com, rot_matrix) + mol2_com'),
  'C06-unseeded-randomness': ('C06', BK, 'desplazamiento = _rand_norm(0, displacement_module, 3)', 'desplazamiento = np.random.default_rng().normal(0, displacement_module, 3)'),
+ 'C10-no-reversal': ('C10', AL, 'restrictions = [i[::-1] for i in restrictions]', 'restrictions = list(restrictions)'),
+ 'C10-rebase-mobile-index': ('C10', AL, 'new_restrictions.append((index_1map[index_1], index_2))', 'new_restrictions.append((index_1map[index_1], index_1map.get(index_2, index_2)))'),
+ 'C10-offbyone-index-map': ('C10', AL, 'index_1map[index] = len(positions) - 1', 'index_1map[index] = len(positions)'),
+ 'C10-h-restraint-kept': ('C10', AL, '        if index_1 in index_1map:\n            new_restrictions.append((index_1map[index_1], index_2))',
+                          '        new_restrictions.append((index_1map.get(index_1, 0), index_2))'),
+ 'C10-split-overlap': ('C10', AL, '(i+1)*length // wanted_parts]', '(i+1)*length // wanted_parts + 1]'),
+ 'C10-wrong-offset': ('C10', AL, 'offset2 += len(mol_res2)', 'offset2 += len(mol_res1)'),
+ 'C10-ignoreH-option-lost': ('C10', MG, '                new_ign[name] = val', '                new_ign[name] = True'),
+ 'C10-unknown-name-accepted': ('C10', MG, "            if name not in complete_correspondence:\n                raise KeyError('There are no molecules with names {} in the '", "            if False:\n                raise KeyError('There are no molecules with names {} in the '"),
+ 'C10-ignoreH-crosstalk': ('C10', MG, 'ignor = ignore_hydrogens[name]', 'ignor = all(ignore_hydrogens.values())'),
+ 'C10-deform-too-long-accepted': ('C10', MG, 'if not 1 <= len(deformation) <= 3:', 'if not 1 <= len(deformation) <= 4:'),
+ 'C10-validate-wrong-molecule': ('C10', MG, 'ind2 = mol_end[tup[1]]', 'ind2 = mol_start[tup[1]]'),
 }
 
 
